@@ -214,16 +214,16 @@ Section Solve.
                      the re-conjoined original formula
      numq_step       instantiate_universal_integer_quantifiers (enumeration / transformation)
      infeasible_step remove_infeasible_universal_quantifiers on OPEN in-trees (reachability, C06)
-     predinst_step   instantiate_structural_predicates for consecutive / level (not covered by
-                     stable_path_only) — NOT nth, for which the premise is false (eval_unsound_nth) *)
-  Variables smt_step sem_step insert_step numq_step infeasible_step predinst_step :
+     (instantiate_structural_predicates needs no premise: for every predicate except nth it is an
+     instance of eval_step_stable — stable_path_only, PredStable.stable_pred2, stable_level; for nth
+     it is unsound, eval_unsound_nth) *)
+  Variables smt_step sem_step insert_step numq_step infeasible_step :
     cstate -> cstate -> Prop.
   Hypothesis H_smt : sound_rel smt_step.
   Hypothesis H_sem : sound_rel sem_step.
   Hypothesis H_insert : sound_rel insert_step.
   Hypothesis H_numq : sound_rel numq_step.
   Hypothesis H_infeasible : sound_rel infeasible_step.
-  Hypothesis H_predinst : sound_rel predinst_step.
 
   Inductive step : cstate -> cstate -> Prop :=
   | st_core s s' : core_step g s s' -> step s s'
@@ -232,8 +232,7 @@ Section Solve.
   | st_sem s s' : sem_step s s' -> step s s'
   | st_insert s s' : insert_step s s' -> step s s'
   | st_numq s s' : numq_step s s' -> step s s'
-  | st_infeasible s s' : infeasible_step s s' -> step s s'
-  | st_predinst s s' : predinst_step s s' -> step s s'.
+  | st_infeasible s s' : infeasible_step s s' -> step s s'.
 
   Inductive reachable (s0 : cstate) : cstate -> Prop :=
   | reach_refl : reachable s0 s0
@@ -244,10 +243,9 @@ Section Solve.
 
   Lemma step_sound : sound_rel step.
   Proof.
-    intros s s' H. destruct H as [s s' H|s s' H|s s' H|s s' H|s s' H|s s' H|s s' H|s s' H];
+    intros s s' H. destruct H as [s s' H|s s' H|s s' H|s s' H|s s' H|s s' H|s s' H];
       try (apply H_smt; assumption); try (apply H_sem; assumption); try (apply H_insert; assumption);
-      try (apply H_numq; assumption); try (apply H_infeasible; assumption);
-      try (apply H_predinst; assumption).
+      try (apply H_numq; assumption); try (apply H_infeasible; assumption).
     - split; [apply core_wf; assumption | apply core_sound; assumption].
     - split; [|apply eval_stable_sound; assumption]. destruct H; simpl; tauto.
   Qed.
@@ -295,7 +293,7 @@ End RunExample.
 
 Example solve_sound_example :
   let R := RunExample.none in
-  reachable RunExample.g R R R R R R (init_state RunExample.nt_s 0 RunExample.cst RunExample.phi)
+  reachable RunExample.g R R R R R (init_state RunExample.nt_s 0 RunExample.cst RunExample.phi)
             ([], RunExample.t1) /\
   final ([], RunExample.t1) /\ sound_rel RunExample.g R.
 Proof.
